@@ -146,7 +146,11 @@ Enter(v, x)  == I("enter", v, x, "", "")        \* manager that restores in fina
 Leave        == I("leave", "", "", "", "")
 SetU(v, x)   == I("set", v, x, "", "")          \* set WITHOUT reset
 ReadU(v)     == I("read", v, "", "", "")        \* read of a set-without-reset variable / of parser.args
-Defaults(p, ch) == I("defaults", p, ch, "", "")  \* get_defaults() (_core.py:399 / :1008-1052): fails with channel ch under ShtabResidue
+\* get_defaults() (_core.py:399 / :1008-1052).  Under ShtabResidue it fails: with channel ch when the default config file is
+\* absent (TypeError from add_sub_defaults :1050), with channel chf when the file exists (argument_error "Problem in default
+\* config file", :1037-1040, an ArgumentError raised whatever exit_on_error says; "" = the caller swallows it).  The parse
+\* methods call get_defaults(skip_validation=True): the file is not validated there, they fail in add_sub_defaults either way.
+Defaults(p, ch, chf) == I("defaults", p, ch, chf, "")
 ReadM(v)     == I("readm", v, "", "", "")       \* read of a MANAGED variable outside every manager that sets it
 Fail(ch)     == I("fail", ch, "", "", "")
 Exit0(what)  == I("exit0", what, "", "", "")
@@ -207,7 +211,7 @@ ParseArgs(o) ==
   (IF ClearOnError THEN <<I("guard", o.p, "", "", "")>> ELSE << >>)                                       \* fix 9a553c5: try/finally around the body (:449-473)
   \o <<I("shtab", o.p, "", "", ""), I("args", o.p, o.tag, "", "")>>                                           \* :439, :447
   \o (IF o.pre = "fail" THEN <<Enter("load_value_mode", "mode"), Fail(ErrCh(o))>>                      \* :404-405 bad environment value
-      ELSE <<Defaults(o.p, ErrCh(o)), SetU("pk", o.kw)>>                                              \* :450, :454
+      ELSE <<Defaults(o.p, ErrCh(o), ErrCh(o)), SetU("pk", o.kw)>>                                              \* :450, :454
            \o Known(o, o.p, o.items, "root",
                     (IF o.sub # "none" THEN SubCall(o) ELSE << >>)
                     \o (IF o.sub # "none" /\ (~Completes(o.sitems) \/ HasBefore(o.sitems, "unk", 0)) THEN << >>
@@ -221,17 +225,17 @@ ParseArgs(o) ==
 ParseOther(o) ==
   (IF o.m = "parse_path" THEN <<Enter("cwd", "cfgdir")>> ELSE << >>)                                                                 \* :621 change_to_path_dir(fpath)
   \o (IF o.m \in {"parse_string", "parse_path"} THEN <<Enter("load_value_mode", "mode"), ReadM("previous_config")>>                   \* :667-668
-                                                      \o (IF o.pre = "fail" THEN <<Fail(ErrCh(o))>> ELSE <<Leave, Defaults(o.p, ErrCh(o))>>)   \* :671
-      ELSE IF o.m = "parse_env" THEN <<Defaults(o.p, ErrCh(o)), Enter("load_value_mode", "mode")>>                                     \* :576 -> :399, :404-405
+                                                      \o (IF o.pre = "fail" THEN <<Fail(ErrCh(o))>> ELSE <<Leave, Defaults(o.p, ErrCh(o), ErrCh(o))>>)   \* :671
+      ELSE IF o.m = "parse_env" THEN <<Defaults(o.p, ErrCh(o), ErrCh(o)), Enter("load_value_mode", "mode")>>                                     \* :576 -> :399, :404-405
                                      \o (IF o.pre = "fail" THEN <<Fail(ErrCh(o))>> ELSE <<Leave>>)
-      ELSE <<Defaults(o.p, ErrCh(o)), Enter("parent_parser", o.p), Enter("lenient_check", "true")>>                                   \* :500; _apply_actions :1371-1372
+      ELSE <<Defaults(o.p, ErrCh(o), ErrCh(o)), Enter("parent_parser", o.p), Enter("lenient_check", "true")>>                                   \* :500; _apply_actions :1371-1372
            \o (IF o.pre = "fail" THEN <<Fail(ErrCh(o))>> ELSE <<Leave, Leave>>))
   \o (IF o.pre = "fail" THEN << >>
       ELSE <<Enter("parent_parser", o.p), Leave>>                                                                                     \* merge_config :1393
            \o Common(o, o.p, TRUE) \o (IF o.m = "parse_path" THEN <<Leave>> ELSE << >>) \o <<Ret>>)      \* a late failure unwinds the cwd manager too
 
 NonParse(o) ==
-  CASE o.m = "get_defaults" -> <<Defaults(o.p, "raise")>> \o SubDefaults \o <<Ret>>                                                  \* :1008-1052 (no default config files)
+  CASE o.m = "get_defaults" -> <<Defaults(o.p, "raise", "error")>> \o SubDefaults \o <<Ret>>                                                  \* :1008-1052 (no default config files)
     [] o.m = "validate"     -> <<Enter("load_value_mode", "mode")>> \o (IF o.pre = "fail" THEN <<Fail("raise")>> ELSE <<Leave, Ret>>)   \* :1145-1155
     [] o.m = "dump"         -> <<Enter("load_value_mode", "mode"), Enter("load_value_mode", "mode")>>                                   \* :790, :1146
                                \o (IF o.pre = "fail" THEN <<Fail("raise")>>
@@ -239,7 +243,7 @@ NonParse(o) ==
                                         \o <<Leave, Leave, Enter("parent_parser", o.p), Leave, Ret>>)                                   \* :805-806
     [] o.m = "instantiate_classes" -> <<Enter("parent_parser", o.p), Enter("nested_links", "links"), Enter("class_instantiators", "inst")>>   \* :1240-1245
                                       \o (IF o.pre = "fail" THEN <<Fail("raise")>> ELSE <<Leave, Leave, Leave, Ret>>)
-    [] o.m = "format_help"  -> <<Defaults(o.p, "raise")>> \o SubDefaults \o <<Enter("parent_parser", o.p), Enter("defaults_cache", "defaults"), Leave, Leave, Ret>>   \* :1296-1313: get_defaults() of the CURRENT file, shown through defaults_cache
+    [] o.m = "format_help"  -> <<Defaults(o.p, "raise", "")>> \o SubDefaults \o <<Enter("parent_parser", o.p), Enter("defaults_cache", "defaults"), Leave, Leave, Ret>>   \* :1296-1313: get_defaults() of the CURRENT file, shown through defaults_cache
     [] o.m = "environment"  -> <<I("file", o.p, o.file, "", ""), Ret>>                                  \* the default config file is written / edited / removed
     [] OTHER -> <<Ret>>
 
@@ -300,7 +304,9 @@ StepFn(st) ==
                             ELSE [nx EXCEPT !.res.shtab[ins.a] = "added"]                           \*   ("conflicting option string"), outside every handler: never an exit
     [] ins.i = "shtabrun" -> [nx EXCEPT !.res.shtab[ins.a] = "broken"]                              \* :130 remove_actions(parser, (ShtabAction,))
     [] ins.i = "file"    -> [nx EXCEPT !.res.dcf[ins.a] = ins.b]
-    [] ins.i = "defaults" -> IF st.res.shtab[ins.a] = "broken" /\ ins.a \in ShtabBreaksDefaults THEN Raise(st, ins.b) ELSE nx   \* add_sub_defaults trips over the appended actions
+    [] ins.i = "defaults" -> IF st.res.shtab[ins.a] = "broken" /\ ins.a \in ShtabBreaksDefaults                        \* add_sub_defaults / the file's validation trip over the appended actions
+                             THEN (IF st.res.dcf[ins.a] = "absent" THEN Raise(st, ins.b) ELSE IF ins.c = "" THEN nx ELSE Raise(st, ins.c))
+                             ELSE nx
     [] ins.i = "request" -> [nx EXCEPT !.res.pending[ins.a] = ins.b]
     [] ins.i = "readpend" -> nx                                                               \* only changes which links are applied below a sub-command
     [] ins.i = "fail"    -> Raise(st, ins.a)
@@ -328,5 +334,6 @@ PendingResidue(o, res) == res.pending[o.p] # "none"
 \* and, on a parser of ShtabBreaksDefaults, so does everything that computes the defaults
 ShtabResidue(o, res) == /\ res.shtab[o.p] = "broken"
                         /\ \/ o.m = "parse_args"
-                           \/ o.p \in ShtabBreaksDefaults /\ o.m \in {"parse_object", "parse_string", "parse_path", "parse_env", "get_defaults", "format_help"}
+                           \/ o.p \in ShtabBreaksDefaults /\ o.m \in {"parse_object", "parse_string", "parse_path", "parse_env", "get_defaults"}
+                           \/ o.p \in ShtabBreaksDefaults /\ o.m = "format_help" /\ res.dcf[o.p] = "absent"     \* with a file format_help swallows the ArgumentError (:1307)
 =============================================================================
